@@ -1,7 +1,7 @@
 (* C31: the decoder model (with the RFC Huffman decoder) on a whole block refines rfc_decode; closure through prop_C31. *)
 From Coq Require Import List ZArith Bool Lia ZifyBool ZifyNat.
 From Bfe Require Import lib.Val lib.Bytes gen.HpackTables model.Huffman model.Hpack run.RunC31
-  proofs.HuffmanProofs proofs.HpackProofs proofs.HpackRfcProofs proofs.HpackIncrProofs.
+  proofs.HuffmanProofs proofs.HpackProofs proofs.HpackRfcProofs proofs.HpackIncrProofs proofs.HpackLimProofs.
 Import ListNotations.
 Open Scope Z_scope.
 
@@ -46,22 +46,6 @@ Proof.
   rewrite IH. reflexivity.
 Qed.
 
-(* the model (RFC Huffman decoder plugged in), fed a whole block, satisfies the executable property *)
-Theorem prop_C31_of_model_oneshot mx p : 0 <= mx -> wf_bytes p = true ->
-  prop_C31 (VL [VZ mx; VL [VB p]]) (observe huff_decode_spec mx [p]) = true.
-Proof.
-  intros Hmx Hw. pose proof (decoder_refines_rfc_oneshot mx p Hmx Hw) as H.
-  unfold prop_C31, observe. cbn [decode_input map as_B all_some concat]. rewrite app_nil_r.
-  destruct (dec_run huff_decode_spec (new_decoder mx) [p] []) as [[d fs] st]. destruct H as [Hnp H].
-  assert (st =? ST_PANIC = false) as -> by (unfold ST_PANIC in *; lia).
-  rewrite val_fields_roundtrip.
-  destruct (rfc_decode mx p) as [[t want]|].
-  - destruct H as [-> [-> [Hr [Hm [Hs _]]]]]. rewrite fields_eqb_refl, Hs, Hr.
-    change (tab_size (rev (ents (ddt d)))) with (tsum (rev (ents (ddt d)))). rewrite tsum_rev, rev_length.
-    unfold vnat. rewrite !Z.eqb_refl. reflexivity.
-  - apply negb_true_iff. lia.
-Qed.
-
 Lemma wf_bytes_concat chunks : forallb wf_bytes chunks = true -> wf_bytes (concat chunks) = true.
 Proof.
   induction chunks as [|c r IH]; [reflexivity|]. cbn [forallb concat]. intros H.
@@ -82,9 +66,10 @@ Qed.
 
 Theorem C31_central_lemma i : wf_C31 i = true -> kf_C31 i = 0 -> prop_C31 i (run_C31 i) = true.
 Proof.
-  unfold wf_C31, prop_C31, run_C31. intros Hwf _. destruct (decode_input i) as [[mx chunks]|]; [|discriminate].
-  apply andb_true_iff in Hwf. destruct Hwf as [Hmx Hw]. apply Z.leb_le in Hmx.
-  pose proof (decoder_refines_rfc mx chunks Hmx Hw) as H. unfold observe.
+  unfold wf_C31, prop_C31, run_C31. intros Hwf _. destruct (decode_input i) as [[[mx M] chunks]|]; [|discriminate].
+  apply andb_true_iff in Hwf. destruct Hwf as [Hwf Hw]. apply andb_true_iff in Hwf. destruct Hwf as [Hmx HM].
+  apply Z.leb_le in Hmx. apply Z.eqb_eq in HM. subst M.
+  pose proof (decoder_refines_rfc mx chunks Hmx Hw) as H. unfold observe. rewrite dec_run_lim0.
   destruct (dec_run huff_decode_spec (new_decoder mx) chunks []) as [[d fs] st]. destruct H as [Hnp H].
   assert (st =? ST_PANIC = false) as -> by (unfold ST_PANIC in *; lia).
   rewrite val_fields_roundtrip.
@@ -94,8 +79,117 @@ Proof.
     unfold vnat. rewrite !Z.eqb_refl. reflexivity.
   - apply negb_true_iff. lia.
 Qed.
-Definition ex_input31 : val := VL [VZ 4096; VL [VB [32; 63]; VB [33; 130; 64]; VB []; VB [1; 120; 129]; VB [7; 190]]].
+Definition ex_input31 : val := VL [VZ 4096; VZ 0; VL [VB [32; 63]; VB [33; 130; 64]; VB []; VB [1; 120; 129]; VB [7; 190]]].
 Lemma ex_input31_ok : wf_C31 ex_input31 = true /\ agree_C31 ex_input31 (run_C31 ex_input31) = true
   /\ run_C31 ex_input31 = VL [VL [VL [VB [58;109;101;116;104;111;100]; VB [71;69;84]; VZ 0]; VL [VB [120]; VB [48]; VZ 0];
                                    VL [VB [120]; VB [48]; VZ 0]]; VZ 0; VZ 34; VZ 64; VZ 1].
 Proof. vm_compute. repeat split; reflexivity. Qed.
+
+(* ---- the decoder model does not depend on which of two Huffman decoders it is given when they agree on byte
+        strings; with huff_decode_eq_spec this transfers every result to the byte-trie decoder ---- *)
+From Bfe Require Import proofs.HuffmanEquivProofs.
+Section Ext.
+Variables hd1 hd2 : bytes -> hres.
+Hypothesis Hext : forall v, wf_bytes v = true -> hd1 v = hd2 v.
+
+Lemma wf_bytes_firstn p k : wf_bytes p = true -> wf_bytes (firstn k p) = true.
+Proof.
+  unfold wf_bytes. rewrite !forallb_forall. intros H x Hx. apply H.
+  rewrite <- (firstn_skipn k p). apply in_or_app. left. exact Hx.
+Qed.
+Lemma read_string_ext p : wf_bytes p = true -> read_string hd1 p = read_string hd2 p.
+Proof.
+  intros Hw. destruct p as [|b0 p0]; [reflexivity|]. unfold read_string.
+  destruct (read_varint 7 (b0 :: p0)) as [len r| |c|] eqn:E; try reflexivity.
+  destruct (read_varint_wf 7 _ _ _ ltac:(lia) Hw E) as [Hwr _].
+  destruct (blen r <? len); [reflexivity|]. destruct (128 <=? b0); [|reflexivity].
+  rewrite (Hext _ (wf_bytes_firstn r (Z.to_nat len) Hwr)). reflexivity.
+Qed.
+Lemma parse_literal_ext d n it p : 0 <= n -> wf_bytes p = true -> parse_literal hd1 d n it p = parse_literal hd2 d n it p.
+Proof.
+  intros Hn Hw. unfold parse_literal.
+  destruct (read_varint n p) as [idx r| |c|] eqn:E; try reflexivity.
+  destruct (read_varint_wf n _ _ _ Hn Hw E) as [Hwr _].
+  destruct (idx >? 0).
+  - destruct (dec_at d idx) as [[nm x]|]; [|reflexivity]. rewrite (read_string_ext r Hwr). reflexivity.
+  - rewrite (read_string_ext r Hwr). destruct (read_string hd2 r) as [nm r1| |c|] eqn:E1; try reflexivity.
+    rewrite (read_string_ext r1 (read_string_wf _ _ _ _ Hwr E1)). reflexivity.
+Qed.
+Lemma parse_repr_ext first d p : wf_bytes p = true -> parse_repr hd1 first d p = parse_repr hd2 first d p.
+Proof.
+  intros Hw. destruct p as [|b p0]; [reflexivity|]. unfold parse_repr.
+  destruct (128 <=? b); [reflexivity|].
+  destruct (64 <=? b); [apply parse_literal_ext; [lia|exact Hw]|].
+  destruct (b <? 16); [apply parse_literal_ext; [lia|exact Hw]|].
+  destruct (b <? 32); [apply parse_literal_ext; [lia|exact Hw]|]. reflexivity.
+Qed.
+Lemma parse_repr_rest_wf hd first d p x rest : wf_bytes p = true -> parse_repr hd first d p = ROk x rest -> wf_bytes rest = true.
+Proof.
+  intros Hw H. destruct p as [|b p0]; [discriminate|]. unfold parse_repr in H.
+  assert (forall n it, 0 <= n -> parse_literal hd d n it (b :: p0) = ROk x rest -> wf_bytes rest = true) as Hlit.
+  { intros n it Hn Hl. unfold parse_literal in Hl.
+    destruct (read_varint n (b :: p0)) as [idx r| |c|] eqn:E; try discriminate.
+    destruct (read_varint_wf n _ _ _ Hn Hw E) as [Hwr _].
+    assert (exists nm r1, wf_bytes r1 = true /\
+              match read_string hd r1 with
+              | ROk v r2 => if it =? 0 then match dt_add d (mkF nm v false) with
+                                            | Some d' => ROk (d', Some (mkF nm v (it =? 2))) r2 | None => RPanic end
+                            else ROk (d, Some (mkF nm v (it =? 2))) r2
+              | RNeedMore => RNeedMore | RErr c => RErr c | RPanic => RPanic
+              end = ROk x rest) as [nm [r1 [Hw1 Hl1]]].
+    { destruct (idx >? 0).
+      - destruct (dec_at d idx) as [[nm y]|]; [|discriminate]. exists nm, r. split; [exact Hwr|exact Hl].
+      - destruct (read_string hd r) as [nm r1| |c|] eqn:E1; try discriminate.
+        exists nm, r1. split; [eapply read_string_wf; eassumption|exact Hl]. }
+    destruct (read_string hd r1) as [v r2| |c|] eqn:E2; try discriminate.
+    pose proof (read_string_wf _ _ _ _ Hw1 E2) as Hw2.
+    destruct (it =? 0); [destruct (dt_add d (mkF nm v false)); [|discriminate]|]; inversion Hl1; subst; exact Hw2. }
+  destruct (128 <=? b).
+  - unfold parse_indexed in H. destruct (read_varint 7 (b :: p0)) as [idx r| |c|] eqn:E; try discriminate.
+    destruct (read_varint_wf 7 _ _ _ ltac:(lia) Hw E) as [Hwr _].
+    destruct (dec_at d idx) as [[n v]|]; [|discriminate]. inversion H; subst. exact Hwr.
+  - destruct (64 <=? b); [apply (Hlit 6 0); [lia|exact H]|].
+    destruct (b <? 16); [apply (Hlit 4 1); [lia|exact H]|].
+    destruct (b <? 32); [apply (Hlit 4 2); [lia|exact H]|].
+    unfold parse_size_update in H. destruct (negb first); [discriminate|].
+    destruct (read_varint 5 (b :: p0)) as [v r| |c|] eqn:E; try discriminate.
+    destruct (read_varint_wf 5 _ _ _ ltac:(lia) Hw E) as [Hwr _].
+    destruct (v >? dallowed d); [discriminate|]. destruct (dt_set_max d v); [|discriminate]. inversion H; subst. exact Hwr.
+Qed.
+Lemma parse_loop_ext : forall fuel first d p acc, wf_bytes p = true ->
+  parse_loop hd1 fuel first d p acc = parse_loop hd2 fuel first d p acc.
+Proof.
+  induction fuel as [|f IH]; intros first d p acc Hw; destruct p as [|b p0]; try reflexivity.
+  cbn [parse_loop]. rewrite (parse_repr_ext first d (b :: p0) Hw).
+  destruct (parse_repr hd2 first d (b :: p0)) as [[d' o] rest| |c|] eqn:E; try reflexivity.
+  apply IH. eapply parse_repr_rest_wf; eassumption.
+Qed.
+Lemma dec_run_ext mx chunks : forallb wf_bytes chunks = true ->
+  dec_run hd1 (new_decoder mx) chunks [] = dec_run hd2 (new_decoder mx) chunks [].
+Proof.
+  intros Hw. rewrite (dec_run_concat hd1), (dec_run_concat hd2). pose proof (wf_bytes_concat chunks Hw) as Hwc.
+  cbn [dec_run]. unfold dec_write, new_decoder. destruct (concat chunks) as [|b p0]; [reflexivity|].
+  cbn [dsave ddt dfirst app]. rewrite (parse_loop_ext _ true _ (b :: p0) [] Hwc).
+  destruct (parse_loop hd2 (S (length (b :: p0))) true (empty_dt mx mx) (b :: p0) []) as [[dd a] st].
+  destruct (st =? 0); reflexivity.
+Qed.
+End Ext.
+
+Theorem run_C31_trie_eq i : wf_C31 i = true -> run_C31_trie i = run_C31 i.
+Proof.
+  unfold wf_C31, run_C31_trie, run_C31. destruct (decode_input i) as [[[mx M] chunks]|]; [|discriminate].
+  intros H. apply andb_true_iff in H. destruct H as [H Hw]. apply andb_true_iff in H. destruct H as [_ HM].
+  apply Z.eqb_eq in HM. subst M. unfold observe. rewrite !dec_run_lim0.
+  rewrite (dec_run_ext huff_decode huff_decode_spec huff_decode_eq_spec mx chunks Hw). reflexivity.
+Qed.
+Theorem decoder_refines_rfc_trie mx chunks : 0 <= mx -> forallb wf_bytes chunks = true ->
+  let '(d, fs, st) := dec_run huff_decode (new_decoder mx) chunks [] in
+  st <> ST_PANIC /\
+  match rfc_decode mx (concat chunks) with
+  | Some (t, want) => st = 0 /\ fs = want /\ trel (ddt d) t
+  | None => st <> 0
+  end.
+Proof.
+  intros Hmx Hw. rewrite (dec_run_ext huff_decode huff_decode_spec huff_decode_eq_spec mx chunks Hw).
+  apply decoder_refines_rfc; assumption.
+Qed.
